@@ -534,4 +534,177 @@ example : Protocol.check solvedOnce [.started 0, .eval 0 0 0 0, .evaluated 0 0] 
 example : Protocol.check { solvedOnce with evalRes := fun _ _ => .fail }
     [.started 0, .eval 0 0 0 0, .epoch 0 0, .evaluated 0 0, .finished 0] ⟨[⟨0, [⟨0, 0, false⟩]⟩], none⟩ = false := by decide
 
+section Chronology
+set_option linter.unusedSimpArgs false
+/-! ### exactly once, in order: the events of every run are strictly increasing in (trial, generation slot, phase) -/
+
+/-- position of an event inside a run: trial, slot (0 = start, g+1 = generation g, maxGen+1 = finish), phase
+    inside the generation (0 = evaluation, 1 = turnover, 2 = notification) -/
+def stamp (s : Script) : Event → Nat × Nat × Nat
+  | .started t => (t, 0, 0)
+  | .eval t g _ _ => (t, g + 1, 0)
+  | .epoch t g => (t, g + 1, 1)
+  | .evaluated t g => (t, g + 1, 2)
+  | .finished t => (t, s.maxGen + 1, 0)
+
+/-- strict lexicographic order on stamps -/
+def Before (s : Script) (a b : Event) : Prop :=
+  (stamp s a).1 < (stamp s b).1 ∨ ((stamp s a).1 = (stamp s b).1 ∧
+    ((stamp s a).2.1 < (stamp s b).2.1 ∨ ((stamp s a).2.1 = (stamp s b).2.1 ∧ (stamp s a).2.2 < (stamp s b).2.2)))
+
+theorem stamp_started (s : Script) (t : Nat) : stamp s (.started t) = (t, 0, 0) := rfl
+theorem stamp_finished (s : Script) (t : Nat) : stamp s (.finished t) = (t, s.maxGen + 1, 0) := rfl
+theorem stamp_eval (s : Script) (t g a b : Nat) : stamp s (.eval t g a b) = (t, g + 1, 0) := rfl
+
+theorem mem_obs {s : Script} {e x : Event} (h : x ∈ obs s e) : x = e := by
+  unfold obs at h; split at h <;> simp_all
+
+theorem stamp_genEvents {s : Script} {t g : Nat} {x : Event} (h : x ∈ genEvents s t g) :
+    (stamp s x).1 = t ∧ (stamp s x).2.1 = g + 1 := by
+  simp only [genEvents, List.mem_cons, List.mem_append] at h
+  rcases h with rfl | h | h
+  · simp [stamp]
+  · split at h
+    · simp at h
+    · simp only [List.mem_singleton] at h; subst h; simp [stamp]
+  · have := mem_obs h; subst this; simp [stamp]
+
+theorem genEvents_pairwise (s : Script) (t g : Nat) : (genEvents s t g).Pairwise (Before s) := by
+  unfold genEvents obs
+  cases solvedAt s t g <;> cases s.observer <;> simp [Before, stamp]
+
+theorem stamp_gensEvents {s : Script} {t g n : Nat} {x : Event} (h : x ∈ gensEvents s t g n) :
+    (stamp s x).1 = t ∧ g + 1 ≤ (stamp s x).2.1 ∧ (stamp s x).2.1 ≤ g + n := by
+  simp only [gensEvents, List.mem_flatMap, List.mem_range'_1] at h
+  obtain ⟨j, ⟨h1, h2⟩, hx⟩ := h
+  obtain ⟨a, b⟩ := stamp_genEvents hx
+  exact ⟨a, by omega, by omega⟩
+
+theorem gensEvents_pairwise (s : Script) (t g n : Nat) : (gensEvents s t g n).Pairwise (Before s) := by
+  unfold gensEvents
+  rw [List.pairwise_flatMap]
+  refine ⟨fun j _ => genEvents_pairwise s t j, ?_⟩
+  refine List.Pairwise.imp ?_ (List.pairwise_lt_range' (s := g) (n := n) (step := 1) (by omega))
+  intro a b hab x hx y hy
+  obtain ⟨x1, x2⟩ := stamp_genEvents hx
+  obtain ⟨y1, y2⟩ := stamp_genEvents hy
+  right; exact ⟨by omega, Or.inl (by omega)⟩
+
+theorem stamp_trialEvents {s : Script} {t : Nat} {x : Event} (h : x ∈ trialEvents s t) : (stamp s x).1 = t := by
+  simp only [trialEvents, List.mem_append] at h
+  rcases h with h | h | h
+  · have := mem_obs h; subst this; rfl
+  · exact (stamp_gensEvents h).1
+  · have := mem_obs h; subst this; rfl
+
+theorem trialEvents_pairwise (s : Script) (t : Nat) : (trialEvents s t).Pairwise (Before s) := by
+  unfold trialEvents
+  have hl := (trialLen_spec s t).1
+  rw [List.pairwise_append, List.pairwise_append]
+  refine ⟨?_, ⟨gensEvents_pairwise s t 0 _, ?_, ?_⟩, ?_⟩
+  · unfold obs; split <;> simp
+  · unfold obs; split <;> simp
+  · intro x hx y hy
+    have := mem_obs hy; subst this
+    obtain ⟨a, b, c⟩ := stamp_gensEvents hx
+    right; exact ⟨by simp only [stamp_started, stamp_finished, stamp_eval, a], Or.inl (by simp only [stamp_started, stamp_finished, stamp_eval]; omega)⟩
+  · intro x hx y hy
+    have := mem_obs hx; subst this
+    rcases List.mem_append.mp hy with hy | hy
+    · obtain ⟨a, b, c⟩ := stamp_gensEvents hy
+      right; exact ⟨by simp only [stamp_started, stamp_finished, stamp_eval, a], Or.inl (by simp only [stamp_started, stamp_finished, stamp_eval]; omega)⟩
+    · have := mem_obs hy; subst this
+      right; exact ⟨rfl, Or.inl (by simp only [stamp_started, stamp_finished, stamp_eval]; omega)⟩
+
+theorem stamp_trialsEvents {s : Script} {t k : Nat} {x : Event} (h : x ∈ trialsEvents s t k) :
+    t ≤ (stamp s x).1 ∧ (stamp s x).1 < t + k := by
+  simp only [trialsEvents, List.mem_flatMap, List.mem_range'_1] at h
+  obtain ⟨j, ⟨h1, h2⟩, hx⟩ := h
+  have := stamp_trialEvents hx
+  omega
+
+theorem trialsEvents_pairwise (s : Script) (t k : Nat) : (trialsEvents s t k).Pairwise (Before s) := by
+  unfold trialsEvents
+  rw [List.pairwise_flatMap]
+  refine ⟨fun j _ => trialEvents_pairwise s j, ?_⟩
+  refine List.Pairwise.imp ?_ (List.pairwise_lt_range' (s := t) (n := k) (step := 1) (by omega))
+  intro a b hab x hx y hy
+  have := stamp_trialEvents hx
+  have := stamp_trialEvents hy
+  left; omega
+
+theorem abort_pairwise (s : Script) (t m : Nat) (called : Bool) :
+    (obs s (.started t) ++ (gensEvents s t 0 m ++ (if called then [Event.eval t m t m] else []))).Pairwise (Before s) ∧
+    ∀ x ∈ obs s (.started t) ++ (gensEvents s t 0 m ++ (if called then [Event.eval t m t m] else [])), (stamp s x).1 = t := by
+  refine ⟨?_, ?_⟩
+  · rw [List.pairwise_append, List.pairwise_append]
+    refine ⟨?_, ⟨gensEvents_pairwise s t 0 _, ?_, ?_⟩, ?_⟩
+    · unfold obs; split <;> simp
+    · cases called <;> simp
+    · intro x hx y hy
+      cases called with
+      | false => simp at hy
+      | true =>
+        simp only [↓reduceIte, List.mem_singleton] at hy; subst hy
+        obtain ⟨a, b, c⟩ := stamp_gensEvents hx
+        right; exact ⟨by simp only [stamp_started, stamp_finished, stamp_eval, a], Or.inl (by simp only [stamp_started, stamp_finished, stamp_eval]; omega)⟩
+    · intro x hx y hy
+      have := mem_obs hx; subst this
+      rcases List.mem_append.mp hy with hy | hy
+      · obtain ⟨a, b, c⟩ := stamp_gensEvents hy
+        right; exact ⟨by simp only [stamp_started, stamp_finished, stamp_eval, a], Or.inl (by simp only [stamp_started, stamp_finished, stamp_eval]; omega)⟩
+      · cases called with
+        | false => simp at hy
+        | true =>
+          simp only [↓reduceIte, List.mem_singleton] at hy; subst hy
+          right; exact ⟨rfl, Or.inl (by simp only [stamp_started, stamp_finished, stamp_eval]; omega)⟩
+  · intro x hx
+    rcases List.mem_append.mp hx with hx | hx
+    · have := mem_obs hx; subst this; rfl
+    · rcases List.mem_append.mp hx with hx | hx
+      · exact (stamp_gensEvents hx).1
+      · cases called with
+        | false => simp at hx
+        | true => simp only [↓reduceIte, List.mem_singleton] at hx; subst hx; rfl
+
+/-- **C20 (exactly once, in order).** For every script the events of the run are strictly increasing in
+    (trial, slot, phase): trials in order 0,1,2,...; inside a trial the start notification, then generations
+    0,1,2,... each as evaluation < turnover < notification, then the finish notification after the last generation.
+    In particular NO event occurs twice: no trial is started or finished twice, no generation evaluated, turned over
+    or notified twice. -/
+theorem execute_chronological (s : Script) : (execute s).1.Pairwise (Before s) := by
+  by_cases ho : s.hasOptions = true
+  · cases herr : (execute s).2.err with
+    | none => rw [(execute_complete s herr).2]; exact trialsEvents_pairwise s 0 s.runs
+    | some e =>
+      obtain ⟨k, hk, _, tail, hev, hab⟩ := execute_abort s ho e herr
+      rw [hev, List.pairwise_append]
+      have key : tail.Pairwise (Before s) ∧ ∀ x ∈ tail, (stamp s x).1 = k := by
+        rcases hab with ⟨_, _, ht⟩ | ⟨_, _, ht⟩ | ⟨m, _, evs, hga, ht⟩
+        · subst ht; simp
+        · subst ht; simp
+        · subst ht
+          rcases hga with ⟨_, hh | ⟨_, hh⟩⟩ | ⟨_, _, hh⟩ | ⟨_, _, _, hh⟩
+          · subst hh; simpa using abort_pairwise s k m false
+          · subst hh; simpa using abort_pairwise s k m true
+          · subst hh; simpa using abort_pairwise s k m true
+          · subst hh; simpa using abort_pairwise s k m true
+      refine ⟨trialsEvents_pairwise s 0 k, key.1, ?_⟩
+      intro x hx y hy
+      have := stamp_trialsEvents hx
+      have := key.2 y hy
+      left; omega
+  · have ho' : s.hasOptions = false := by simpa using ho
+    simp [execute, ho']
+
+theorem Before.irrefl (s : Script) (a : Event) : ¬ Before s a a := by
+  unfold Before; omega
+
+/-- **C20 (no duplicate notification or evaluation).** -/
+theorem execute_nodup (s : Script) : (execute s).1.Nodup := by
+  have := execute_chronological s
+  exact this.imp (fun {a b} h hab => by subst hab; exact Before.irrefl s a h)
+
+end Chronology
+
 end GoNeat.C20
